@@ -133,7 +133,10 @@ def build(e, cfg, d='/ds'):
         off = 0
         for pi, cp_ in enumerate(merged):
             if sym and 'channels' in groups:
-                om = [e.int('om%d_%d' % (pi, c), 0, cp_ + 1) for c in range(cp_)]
+                om = [e.int('om%d_%d' % (pi, c), 0, cfg.get('om_hi', cp_ + 1)) for c in range(cp_)]
+                if cfg.get('om_hi'):
+                    for v in om:
+                        e.prefer.append(v <= cp_ + 1)
                 for a, b in itertools.combinations(om, 2):
                     e.assume(a != b)
             else:
@@ -147,7 +150,7 @@ def build(e, cfg, d='/ds'):
                 mx = ite(v > mx, v, mx) if isinstance(v, core.Sym) or isinstance(mx, core.Sym) else max(v, mx)
             off = mx
         ds.orig_maps = orig
-        ncd = cfg['ncd'] = sum(cp_ + 2 for cp_ in merged)
+        ncd = cfg['ncd'] = sum(cfg.get('om_hi', cp_ + 1) + 1 for cp_ in merged)
         pos = []
         for pi, cp_ in enumerate(merged):
             for c in range(cp_):
@@ -168,7 +171,7 @@ def build(e, cfg, d='/ds'):
     shanks = [c % 2 for c in range(nc)]
     ds.shanks, ds.probes = shanks, probes
     add('channel_shanks', _arr(shanks, vec(nc), 'int32'))
-    add('channel_probe', _arr(probes, vec(nc), 'int32'))
+    add('channel_probe', _arr(probes, vec(nc), cfg.get('probe_dtype', 'int32')))
     # ---- templates ----
     if sym and 'templates' in groups:
         tv = [e.real('w%d' % k) for k in range(T * nsw * nc)]
@@ -322,7 +325,7 @@ class RealDS(object):
         merged = cfg.get('merged')
         if merged:
             pos = np.array([[100.0 * pi + 10.0 * (c % 2), 20.0 * c] for pi, cp_ in enumerate(merged) for c in range(cp_)])
-            prb = np.array([pi for pi, cp_ in enumerate(merged) for c in range(cp_)], dtype=np.int32)
+            prb = np.array([pi for pi, cp_ in enumerate(merged) for c in range(cp_)], dtype=cfg.get('probe_dtype', 'int32'))
         else:
             pos = np.array(cfg.get('positions') or [[10.0 * (c % 2), 20.0 * c] for c in range(nc)])
             prb = np.zeros(nc, dtype=np.int32)
